@@ -20,6 +20,7 @@ mod handshake;
 mod inbound;
 mod framing;
 mod io;
+mod keepalive;
 mod localproc;
 mod md5;
 mod nodeenv;
@@ -63,6 +64,7 @@ fn main() {
         "serde-rt" => serde_rt::run(rest),
         "elixir-run" => elixir::run(rest),
         "epmd-run" => epmd::run(rest),
+        "keepalive-run" => keepalive::run(rest),
         "behaviours-run" => behaviours::run(rest),
         "nodeconn-run" => nodeconn::run(rest),
         other => {
